@@ -129,58 +129,76 @@ def run(c):
         g = vlib.tlc(SPEC_DIR, "MC_Hardfork", "Gen_Hardfork.cfg", os.path.join(c.work, "gen2"), workers=1, timeout=2400)
         return g, (hardfork_input(vlib.parse_transitions(g.out)) if g.ok else None)
 
-    t_g1 = bg("gen1", gen_commit)
-    t_g2 = bg("gen2", gen_hardfork)
-    t_m1 = bg("mc1", lambda: vlib.tlc(SPEC_DIR, "MC_Commitments", mc1, os.path.join(c.work, "mc1"), workers=3, timeout=2400))
-    t_m2 = bg("mc2", lambda: vlib.tlc(SPEC_DIR, "MC_Hardfork", mc2, os.path.join(c.work, "mc2"), workers=3, timeout=2400))
-    threads = [t_g1, t_g2, t_m1, t_m2]
-    try:
-        # ---- 1. commitments: the enumerated cases on package types and account/key
-        gen1, parsed = need("gen1", t_g1)
-        c.require_ok(gen1, "enumeration of the commitment cases with the model's predictions (%s)" % g1)
+    def go(pkg, run, env, timeout):
+        o = env["VERIF_OUT"]
+        t0 = time.time()
+        cwd = os.path.join(c.work, "cwd-" + os.path.basename(o))       # own scratch dir: the harnesses run concurrently
+        os.makedirs(cwd, exist_ok=True)
+        rc, output = vlib.go_test(pkg, run, env=dict(env, VERIF_SEED=c.seed, VERIF_TIER=c.tier), timeout=timeout, cwd=cwd)
+        return rc, output, o, time.time() - t0
+
+    def commit_side():
+        """enumeration of the commitment cases -> package types and account/key"""
+        gen1, parsed = gen_commit()
+        if not gen1.ok:
+            return gen1, None, []
         muts, lists, codec, cids = parsed
-        if len(muts) < 1500 or len(lists) < 200 or len(codec) < 3000 or len(cids) < 500:
-            raise vlib.Infra("case enumeration incomplete: %d mutations, %d lists, %d containers, %d chain ids" % (len(muts), len(lists), len(codec), len(cids)))
         inp = dict(mutations=muts, lists=lists, codec=codec, cids=cids,
-                   reps=4 if thorough else 1, long_lists=2000 if thorough else 200, genesis=2000 if thorough else 200)
+                   reps=3 if thorough else 1, long_lists=2000 if thorough else 200, genesis=2000 if thorough else 200)
         inpath = os.path.join(c.work, "commit_in.json")
         json.dump(inp, open(inpath, "w"))
-        outpath = os.path.join(c.work, "commit_out.json")
-        t0 = time.time()
-        rc, output = vlib.go_test("./types/", "^TestVerifCommit$", env={"VERIF_IN": inpath, "VERIF_OUT": outpath, "VERIF_SEED": c.seed, "VERIF_TIER": c.tier}, timeout=2400)
-        r1 = c.absorb_go(outpath, output)
-        c.notes.append("types harness wall %.1fs" % (time.time() - t0))
-        if rc != 0 and not r1.get("violations"):
-            raise vlib.Infra("types harness failed:\n" + output[-3000:])
-
+        runs = [("types", go("./types/", "^TestVerifCommit$", {"VERIF_IN": inpath, "VERIF_OUT": os.path.join(c.work, "commit_out.json")}, 2400))]
         txin = os.path.join(c.work, "tx_in.json")
         json.dump(dict(mutations=[m for m in muts if m["kind"] == "tx"], reps=6 if thorough else 2), open(txin, "w"))
-        txout = os.path.join(c.work, "tx_out.json")
-        t0 = time.time()
-        rc, output = vlib.go_test("./account/key/", "^TestVerifTxSign$", env={"VERIF_IN": txin, "VERIF_OUT": txout, "VERIF_SEED": c.seed, "VERIF_TIER": c.tier}, timeout=1200)
-        r2 = c.absorb_go(txout, output)
-        c.notes.append("account/key harness wall %.1fs" % (time.time() - t0))
-        if rc != 0 and not r2.get("violations"):
-            raise vlib.Infra("account/key harness failed:\n" + output[-3000:])
+        runs.append(("account/key", go("./account/key/", "^TestVerifTxSign$", {"VERIF_IN": txin, "VERIF_OUT": os.path.join(c.work, "tx_out.json")}, 1200)))
+        return gen1, (parsed, inp), runs
+
+    tracepath = os.path.join(c.work, "hardfork_trace.ndjson")
+    nmaps = len(height_maps(c.tier, random.Random(0), [0, 2, 3]))
+
+    def hardfork_side():
+        """every transition of the restart model -> package chain (real start-up check, ChainDB, receipts)"""
+        gen2, T = gen_hardfork()
+        if not gen2.ok:
+            return gen2, None, []
+        hin = os.path.join(c.work, "hardfork_in.json")
+        json.dump(dict(trans=T, heights=[0, 2, 3], maps=[[str(x) for x in m] for m in height_maps(c.tier, rng, [0, 2, 3])],
+                       runs=60 if thorough else 12, run_len=120 if thorough else 60), open(hin, "w"))
+        runs = [("chain", go("./chain/", "^TestVerifHardfork$", {"VERIF_IN": hin, "VERIF_OUT": os.path.join(c.work, "hardfork_out.json"),
+                                                                 "VERIF_TRACE": tracepath}, 2400))]
+        return gen2, T, runs
+
+    t_a = bg("commit", commit_side)
+    t_b = bg("hardfork", hardfork_side)
+    t_m1 = bg("mc1", lambda: vlib.tlc(SPEC_DIR, "MC_Commitments", mc1, os.path.join(c.work, "mc1"), workers=3, timeout=2400))
+    t_m2 = bg("mc2", lambda: vlib.tlc(SPEC_DIR, "MC_Hardfork", mc2, os.path.join(c.work, "mc2"), workers=3, timeout=2400))
+    threads = [t_a, t_b, t_m1, t_m2]
+
+    def absorb(runs):
+        for name, (rc, output, o, wall) in runs:
+            r = c.absorb_go(o, output)
+            c.notes.append("%s harness wall %.1fs (build included)" % (name, wall))
+            if "VERIF-ABORT" in output:
+                raise vlib.Infra("%s harness aborted:\n%s" % (name, output[-1500:]))
+            if rc != 0 and not r.get("violations"):
+                raise vlib.Infra("%s harness failed:\n%s" % (name, output[-3000:]))
+
+    try:
+        # ---- 1. commitments: the enumerated cases on package types and account/key
+        gen1, parsed, runs1 = need("commit", t_a)
+        c.require_ok(gen1, "enumeration of the commitment cases with the model's predictions (%s)" % g1)
+        (muts, lists, codec, cids), inp = parsed
+        if len(muts) < 1500 or len(lists) < 200 or len(codec) < 3000 or len(cids) < 500:
+            raise vlib.Infra("case enumeration incomplete: %d mutations, %d lists, %d containers, %d chain ids" % (len(muts), len(lists), len(codec), len(cids)))
+        absorb(runs1)
 
         # ---- 2. hardfork: every transition of the restart model on the real start-up check and chain database
-        gen2, T = need("gen2", t_g2)
+        gen2, T, runs2 = need("hardfork", t_b)
         c.require_ok(gen2, "every transition of the restart model (Gen_Hardfork)")
         nstart = sum(1 for e in T if e["act"] == "Start")
         if nstart < 20000 or not any(e["act"] == "AddBlock" for e in T):
             raise vlib.Infra("restart transitions incomplete: %d Start" % nstart)
-        hin = os.path.join(c.work, "hardfork_in.json")
-        json.dump(dict(trans=T, heights=[0, 2, 3], maps=[[str(x) for x in m] for m in height_maps(c.tier, rng, [0, 2, 3])],
-                       runs=60 if thorough else 12, run_len=120 if thorough else 60), open(hin, "w"))
-        hout = os.path.join(c.work, "hardfork_out.json")
-        tracepath = os.path.join(c.work, "hardfork_trace.ndjson")
-        t0 = time.time()
-        rc, output = vlib.go_test("./chain/", "^TestVerifHardfork$", env={"VERIF_IN": hin, "VERIF_OUT": hout, "VERIF_TRACE": tracepath,
-                                                                          "VERIF_SEED": c.seed, "VERIF_TIER": c.tier}, timeout=2400)
-        r3 = c.absorb_go(hout, output)
-        c.notes.append("chain harness wall %.1fs" % (time.time() - t0))
-        if rc != 0 and not r3.get("violations"):
-            raise vlib.Infra("chain harness failed:\n" + output[-3000:])
+        absorb(runs2)
 
         # ---- 3. the design-level runs
         c.require_ok(need("mc1", t_m1), "Commitments design: required fields committed, signing digests, padding-only root collisions, storage covers commitment, round trips (%s)" % mc1)
@@ -188,8 +206,7 @@ def run(c):
         c.exhaustive = True
         c.extra["exhaustive_note"] = ("exhaustive over the abstract models: %d (kind, shape, field) mutations, %d lists, %d stored containers, %d chain ids, "
                                       "%d restart transitions x %d height maps; SAMPLED: field contents, long lists (%d), genesis records (%d), the random restart run"
-                                      % (len(muts), len(lists), len(codec), len(cids), len(T), len(height_maps(c.tier, random.Random(0), [0, 2, 3])),
-                                         inp["long_lists"], inp["genesis"]))
+                                      % (len(muts), len(lists), len(codec), len(cids), len(T), nmaps, inp["long_lists"], inp["genesis"]))
         c.extra["sampled"] = ["byte contents of every field", "lists longer than the model bound", "genesis records", "random restart run"]
 
         # ---- 4. direction B: the recorded random run of restarts validated by TLC against HardforkTrace.tla
